@@ -144,7 +144,20 @@ func (o *optionDefinitions) asOptions() []util.Option { //nolint: gocyclo,gocogn
 		case transportSystemOpenArgs:
 			strSliceVal, ok := opt.Value.([]string)
 			if !ok {
-				panic("option transportSystemOpenArgs value must be an array of strings")
+				// a yaml (or json) list is decoded into a slice of interfaces
+				ifaceSliceVal, ifaceOk := opt.Value.([]interface{})
+				if !ifaceOk {
+					panic("option transportSystemOpenArgs value must be an array of strings")
+				}
+
+				for _, ifaceVal := range ifaceSliceVal {
+					strVal, strOk := ifaceVal.(string)
+					if !strOk {
+						panic("option transportSystemOpenArgs value must be an array of strings")
+					}
+
+					strSliceVal = append(strSliceVal, strVal)
+				}
 			}
 
 			opts[i] = options.WithSystemTransportOpenArgs(strSliceVal)
